@@ -170,7 +170,7 @@ def run(tier):
     C.stream('oracle.determinism', runs, runs, sample=dict(tree=trees[0]['name'], variants=[v[0] for v in VARIANTS] + ['same-object-twice', 'same-object-after-failed-run', 'created-reversed', 'second-run-same-dir', 'pre-populated']))
     C.cov['distribution'] = dict(trees=len(trees), generator_runs=runs)
     # ---- correspondence with Model/GenPkg.v: file set and __init__ star-imports
-    fn = os.path.join(COQ, 'Cases', 'c18.v')
+    fn = os.path.join(CASES, 'c18.v')
     os.makedirs(os.path.dirname(fn), exist_ok=True)
     with open(fn, 'w') as f:
         f.write("From EO Require Import Prelude.Py Prelude.Corr Model.Spec Model.Elab Model.GenPkg.\nOpen Scope string_scope.\nOpen Scope list_scope.\n")
